@@ -994,6 +994,13 @@ static void array_designator(Token **rest, Token *tok, Type *ty, int *begin, int
   *rest = skip(tok, "]");
 }
 
+// Unnamed bit-fields do not take part in initialization.
+static Member *skip_unnamed_bitfields(Member *mem) {
+  while (mem && mem->is_bitfield && !mem->name)
+    mem = mem->next;
+  return mem;
+}
+
 // struct-designator = "." ident
 static Member *struct_designator(Token **rest, Token *tok, Type *ty) {
   Token *start = tok;
@@ -1041,7 +1048,7 @@ static void designation(Token **rest, Token *tok, Initializer *init) {
     Member *mem = struct_designator(&tok, tok, init->ty);
     designation(&tok, tok, init->children[mem->idx]);
     init->expr = NULL;
-    struct_initializer2(rest, tok, init, mem->next);
+    struct_initializer2(rest, tok, init, skip_unnamed_bitfields(mem->next));
     return;
   }
 
@@ -1156,7 +1163,7 @@ static void array_initializer2(Token **rest, Token *tok, Initializer *init, int 
 static void struct_initializer1(Token **rest, Token *tok, Initializer *init) {
   tok = skip(tok, "{");
 
-  Member *mem = init->ty->members;
+  Member *mem = skip_unnamed_bitfields(init->ty->members);
   bool first = true;
 
   while (!consume_end(rest, tok)) {
@@ -1167,13 +1174,13 @@ static void struct_initializer1(Token **rest, Token *tok, Initializer *init) {
     if (equal(tok, ".")) {
       mem = struct_designator(&tok, tok, init->ty);
       designation(&tok, tok, init->children[mem->idx]);
-      mem = mem->next;
+      mem = skip_unnamed_bitfields(mem->next);
       continue;
     }
 
     if (mem) {
       initializer2(&tok, tok, init->children[mem->idx]);
-      mem = mem->next;
+      mem = skip_unnamed_bitfields(mem->next);
     } else {
       tok = skip_excess_element(tok);
     }
@@ -1184,7 +1191,7 @@ static void struct_initializer1(Token **rest, Token *tok, Initializer *init) {
 static void struct_initializer2(Token **rest, Token *tok, Initializer *init, Member *mem) {
   bool first = true;
 
-  for (; mem && !is_end(tok); mem = mem->next) {
+  for (; mem && !is_end(tok); mem = skip_unnamed_bitfields(mem->next)) {
     Token *start = tok;
 
     if (!first)
@@ -1257,7 +1264,7 @@ static void initializer2(Token **rest, Token *tok, Initializer *init) {
       return;
     }
 
-    struct_initializer2(rest, tok, init, init->ty->members);
+    struct_initializer2(rest, tok, init, skip_unnamed_bitfields(init->ty->members));
     return;
   }
 
